@@ -33,7 +33,18 @@ type Buf struct {
 	Data string `json:"data"` // the packet (hex)
 }
 
+// PreCall is an earlier Write on the same device (write-path cases).
+type PreCall struct {
+	Off int   `json:"off"`
+	In  []Buf `json:"in"`
+}
+
 type Case struct {
+	// W: write-path case: In is one batch handed to (*NativeTun).Write on a device (GRO tables
+	// persisting across calls) that has already executed the calls in Pre; Out is what reached the fd.
+	W   bool      `json:"w,omitempty"`
+	Pre []PreCall `json:"pre,omitempty"`
+
 	Gen string `json:"gen"`
 	UDP bool   `json:"udp"`
 	Off int    `json:"off"`
@@ -44,6 +55,8 @@ type Case struct {
 	// second opinion computed in Go (not used by the Coq check): problems found when the
 	// written GSO buffers are split by the repository's own read-side gsoSplit
 	Second []string `json:"second,omitempty"`
+	// write path: the implementation panicked (e.g. an index out of range from a stale table entry)
+	Panic string `json:"panic,omitempty"`
 }
 
 // ---------------------------------------------------------------------------
@@ -212,7 +225,84 @@ func (p *Pkt) build() []byte {
 // ---------------------------------------------------------------------------
 // running the real code
 
+func makeBufs(in []Buf, off int) [][]byte {
+	bufs := make([][]byte, len(in))
+	for i, b := range in {
+		data, err := hex.DecodeString(b.Data)
+		if err != nil {
+			panic(err)
+		}
+		hdr, err := hex.DecodeString(b.Hdr)
+		if err != nil || len(hdr) != vh {
+			panic("bad hdr")
+		}
+		cp := b.Cap
+		if cp < off+len(data) {
+			cp = off + len(data)
+			in[i].Cap = cp
+		}
+		buf := make([]byte, off+len(data), cp)
+		if off >= vh {
+			copy(buf[off-vh:], hdr)
+		}
+		copy(buf[off:], data)
+		bufs[i] = buf
+	}
+	return bufs
+}
+
+// runWrite drives the real (*NativeTun).Write on ONE device over a SOCK_DGRAM socketpair standing in
+// for the TUN fd: first the earlier calls (their output is drained and dropped), then the call itself.
+func runWrite(c *Case) {
+	fds, err := unix.Socketpair(unix.AF_UNIX, unix.SOCK_DGRAM, 0)
+	if err != nil {
+		panic(err)
+	}
+	defer unix.Close(fds[1])
+	unix.SetsockoptInt(fds[0], unix.SOL_SOCKET, unix.SO_SNDBUF, 1<<22)
+	f := os.NewFile(uintptr(fds[0]), "faketun")
+	defer f.Close()
+	dev := tun.VerifNewWriteTun(f, c.UDP)
+	c.Panic = ""
+	defer func() {
+		if r := recover(); r != nil {
+			c.Panic = fmt.Sprint(r)
+			c.Err, c.TW, c.Out, c.Second = false, []int{}, []Buf{}, nil
+		}
+	}()
+	rx := make([]byte, 1<<17)
+	drain := func() []Buf {
+		var out []Buf
+		for {
+			n, _, err := unix.Recvfrom(fds[1], rx, unix.MSG_DONTWAIT)
+			if err != nil {
+				return out
+			}
+			if n < vh {
+				panic("short datagram on the fake tun")
+			}
+			out = append(out, Buf{Hdr: hex.EncodeToString(rx[:vh]), Data: hex.EncodeToString(rx[vh:n])})
+		}
+	}
+	for i := range c.Pre {
+		dev.Write(makeBufs(c.Pre[i].In, c.Pre[i].Off), c.Pre[i].Off)
+		drain()
+	}
+	_, werr := dev.Write(makeBufs(c.In, c.Off), c.Off)
+	c.Err = werr != nil
+	c.TW = []int{}
+	c.Out = drain()
+	if c.Out == nil {
+		c.Out = []Buf{}
+	}
+	c.Second = nil
+}
+
 func runImpl(c *Case) {
+	if c.W {
+		runWrite(c)
+		return
+	}
 	bufs := make([][]byte, len(c.In))
 	for i, b := range c.In {
 		data, err := hex.DecodeString(b.Data)
@@ -336,7 +426,12 @@ var tcpOptSets = [][]byte{
 func (g *gen) sizes(n int, big bool) []int {
 	base := g.pick(1, 2, 7, 100, 100, 536, 1200, 1448)
 	if big {
-		base = g.pick(1200, 1448, 8000)
+		// enough to run up against 65535, but no single case of a megabyte (a case cannot be
+		// split over shards: it would set the wall time of the whole run)
+		base = g.pick(1200, 1448)
+		if n <= 12 {
+			base = g.pick(1448, 8000)
+		}
 	}
 	out := make([]int, n)
 	switch g.r.Intn(6) {
@@ -691,6 +786,9 @@ func (g *gen) randomBatch(i int) Case {
 	case i%41 == 7: // large coalesced buffers: up against 65535
 		total = 50 + r.Intn(14)
 		nf = 1 + r.Intn(2)
+		if r.Intn(3) == 0 {
+			total, nf = 9+r.Intn(4), 1
+		}
 		big = true
 		capMode = g.pick(0, 1, 4, 4)
 	}
@@ -872,6 +970,101 @@ func fixedCases() []Case {
 	return []Case{c, c2, c3, c4, c5, c6}
 }
 
+// writeSeq: several Write calls on one device.  Flows continue across the calls (sequence-adjacent
+// segments, further datagrams of a UDP flow); some calls fail with "invalid offset" after packets
+// have already been entered into the tables (an empty buffer later in the batch) or at once (offset
+// below the virtio header size); the following calls must not be influenced by them.
+func (g *gen) writeSeq(id int) []Case {
+	r := g.r
+	udp := r.Intn(4) != 0
+	off := g.pick(16, 16, 10, 32)
+	// the flows: each a list of packets in order, dealt out to the calls
+	nflows := 2 + r.Intn(3)
+	var flows [][]*Pkt
+	for f := 0; f < nflows; f++ {
+		n := 3 + r.Intn(7)
+		v6 := r.Intn(2) == 0
+		var pk []*Pkt
+		if r.Intn(3) != 0 {
+			base := g.pick(50, 100, 100, 300)
+			seq := []uint32{1, 5000, 0xffffff00}[r.Intn(3)]
+			for i := 0; i < n; i++ {
+				p := mkTCP(v6, seq, 0x10, base)
+				p.Src, p.Dst, p.Sport = byte(1+f), 9, uint16(100+f)
+				seq += uint32(base)
+				pk = append(pk, p)
+			}
+		} else {
+			for i := 0; i < n; i++ {
+				pk = append(pk, &Pkt{V6: v6, Proto: 17, Src: byte(1 + f), Dst: 9, Sport: uint16(200 + f), Dport: 53, TTL: 64, Payload: g.payload(100)})
+			}
+		}
+		flows = append(flows, pk)
+	}
+	ncalls := 2 + r.Intn(3)
+	idx := make([]int, nflows)
+	var calls []Case
+	var pre []PreCall
+	for c := 0; c < ncalls; c++ {
+		var batch [][]*Pkt
+		// every flow contributes 0..3 of its next packets, flow order rotated so that index 0 changes owner
+		for k := 0; k < nflows; k++ {
+			f := (k + c) % nflows
+			take := r.Intn(4)
+			var part []*Pkt
+			for t := 0; t < take && idx[f] < len(flows[f]); t++ {
+				part = append(part, flows[f][idx[f]])
+				idx[f]++
+			}
+			if len(part) > 0 {
+				batch = append(batch, part)
+			}
+		}
+		if len(batch) == 0 {
+			batch = append(batch, []*Pkt{g.otherPkt(id)})
+		}
+		coff := off
+		fail := ""
+		switch r.Intn(5) {
+		case 0:
+			fail = "empty"
+		case 1:
+			if c > 0 {
+				fail = "offset"
+				coff = g.pick(0, 9)
+			}
+		}
+		cs := g.assemble(fmt.Sprintf("write/%s", map[string]string{"": "ok", "empty": "invalid-offset-after-tabled-packets", "offset": "offset-below-header"}[fail]), batch, coff, udp, 0)
+		// assemble interleaves the parts; keep the order of the parts instead (flow by flow)
+		if fail == "empty" && len(cs.In) >= 1 {
+			at := 1 + r.Intn(len(cs.In))
+			e := Buf{Cap: 2048, Hdr: hex.EncodeToString(make([]byte, vh)), Data: ""}
+			cs.In = append(cs.In[:at], append([]Buf{e}, cs.In[at:]...)...)
+		}
+		cs.W = true
+		cs.Pre = append([]PreCall(nil), pre...)
+		calls = append(calls, cs)
+		pre = append(pre, PreCall{Off: coff, In: cs.In})
+	}
+	return calls
+}
+
+// the shape of the write-after-failed-write scenario, fixed
+func fixedWriteSeq() []Case {
+	g := &gen{r: rand.New(rand.NewSource(7))}
+	fl := func(dst byte, seq uint32) *Pkt { p := mkTCP(false, seq, 0x10, 100); p.Dst = dst; return p }
+	c1 := g.assemble("write/fixed/failing-call-after-tabled-packet", [][]*Pkt{{fl(2, 1)}}, 16, true, 0)
+	c1.In = append(c1.In, Buf{Cap: 2048, Hdr: hex.EncodeToString(make([]byte, vh)), Data: ""})
+	c1.W = true
+	c2 := g.assemble("write/fixed/call-after-failed-call", [][]*Pkt{{fl(3, 5000), fl(2, 101)}}, 16, true, 0)
+	c2.W = true
+	c2.Pre = []PreCall{{Off: 16, In: c1.In}}
+	c3 := g.assemble("write/fixed/continuing-flows", [][]*Pkt{{fl(2, 201), fl(3, 5100), fl(2, 301)}}, 16, true, 0)
+	c3.W = true
+	c3.Pre = []PreCall{{Off: 16, In: c1.In}, {Off: 16, In: c2.In}}
+	return []Case{c1, c2, c3}
+}
+
 // ---------------------------------------------------------------------------
 // Gallina output
 
@@ -901,6 +1094,24 @@ func galBuf(b Buf) string {
 
 func gallina(c Case) string {
 	var sb strings.Builder
+	if c.W {
+		fmt.Fprintf(&sb, "mkw %v %d [", c.UDP, c.Off)
+		for i, b := range c.In {
+			if i > 0 {
+				sb.WriteString(";\n  ")
+			}
+			sb.WriteString(galBuf(b))
+		}
+		fmt.Fprintf(&sb, "] %v [", c.Err)
+		for i, b := range c.Out {
+			if i > 0 {
+				sb.WriteString(";\n  ")
+			}
+			sb.WriteString(galBuf(b))
+		}
+		sb.WriteString("]")
+		return sb.String()
+	}
 	fmt.Fprintf(&sb, "mk %v %d [", c.UDP, c.Off)
 	for i, b := range c.In {
 		if i > 0 {
@@ -1010,6 +1221,7 @@ func main() {
 			cases = append(cases, c)
 		}
 		cases = append(cases, fixedCases()...)
+		cases = append(cases, fixedWriteSeq()...)
 		g := &gen{r: rand.New(rand.NewSource(*seed))}
 		for i := 0; i < *n; i++ {
 			switch {
@@ -1020,6 +1232,10 @@ func main() {
 			default:
 				cases = append(cases, g.randomBatch(i))
 			}
+		}
+		// write path: sequences of Write calls on one device
+		for i := 0; i < *n/8+2; i++ {
+			cases = append(cases, g.writeSeq(i)...)
 		}
 		for i := range cases {
 			runImpl(&cases[i])
